@@ -48,7 +48,7 @@ func overlapBody(c *nd.Ctx) nd.Result {
 					continue
 				}
 				answered[id] = true
-				joinsSeen++
+				vs.Atomically(func() { joinsSeen++ })
 				if joinsSeen == 2 {
 					env.PeerWrite(selfPresence("", el.Attr("to"), ""))
 				}
@@ -59,7 +59,7 @@ func overlapBody(c *nd.Ctx) nd.Result {
 		defer cancel1()
 		vs.GoNamed("first-join", false, func() {
 			_, errs[0] = client.Join(ctx1, room, env.S)
-			returned[0] = true
+			vs.Atomically(func() { returned[0] = true })
 		})
 		// the retry starts once the first request is on the wire
 		vsess.Wait("first-request-sent", func() bool { return joinsSeen >= 1 })
